@@ -61,7 +61,10 @@ def run(pid, lean_module, theorems, scenarios, rule, tier, seed, level="proof", 
     if not build["extract_errors"]: obligations.append(("extract:locators", True, "all source locators matched"))
     mod_ok = not any(m.startswith("NunVerif") or m.startswith("Driver") for m in build.get("failed_modules", []))
     axioms = {}
-    if mod_ok and theorems: axioms, _ = core.lean_axioms(lean_module, theorems)
+    if mod_ok and theorems:
+        axioms, _ = core.lean_axioms(lean_module, theorems)
+        ok_rc, det = core.lean_recheck(lean_module)
+        obligations.append((f"leanchecker {lean_module}", ok_rc, det))
     for t in theorems:
         ax = axioms.get(t)
         obligations.append((t, bool(mod_ok and ax is not None and set(ax) <= core.ALLOWED_AXIOMS), f"axioms {ax}" if mod_ok else "module does not compile: " + "; ".join(build.get("lake_errors", [])[:3])))
